@@ -931,9 +931,14 @@ func (c *FnCtx) loop(st *State, n int, spec *LoopSpec, node ast.Stmt, body ast.N
 		c.useLemma(head, u)
 	}
 	var m0 string
+	var m0s []string
 	if spec.Decreases != nil {
 		mv, _ := c.bvOf(c.evalCExpr(head, spec.Decreases.Expr, nil), pos)
 		m0 = c.define("measure", mv.S, mv.T)
+		for _, d := range spec.DecreasesLex {
+			dv, _ := c.bvOf(c.evalCExpr(head, d.Expr, nil), pos)
+			m0s = append(m0s, c.define("measure", dv.S, dv.T))
+		}
 	}
 	cond := condFn(head)
 	in := head.clone()
@@ -951,6 +956,17 @@ func (c *FnCtx) loop(st *State, n int, spec *LoopSpec, node ast.Stmt, body ast.N
 		if spec.Decreases != nil {
 			mv, _ := c.bvOf(c.evalCExpr(nx, spec.Decreases.Expr, nil), pos)
 			g := and(app("bvsge", m0, bvInt(0, mv.S.W)), app("bvslt", mv.T, m0))
+			if len(spec.DecreasesLex) > 1 {
+				// lexicographic: some component decreases (and is bounded below) while all earlier ones are unchanged
+				var alts []string
+				eqs := []string{}
+				for k, d := range spec.DecreasesLex {
+					dv, _ := c.bvOf(c.evalCExpr(nx, d.Expr, nil), pos)
+					alts = append(alts, and(append(append([]string{}, eqs...), app("bvsge", m0s[k], bvInt(0, dv.S.W)), app("bvslt", dv.T, m0s[k]))...))
+					eqs = append(eqs, app("=", dv.T, m0s[k]))
+				}
+				g = or(alts...)
+			}
 			c.obligeNamed(nx, fmt.Sprintf("decreases.loop%d", n), "decreases", pos, g, "loop measure is non-negative and decreases: "+spec.Decreases.Text)
 		} else if auto != nil && auto.measure != nil {
 			// range loops terminate by construction (hidden index)
